@@ -33,7 +33,8 @@ const (
 	c17ReloadWho   = 1000
 	c17TableProbe  = 64 // VerifReset clears the slots below this number (scenario numbers are < 16)
 	c17OOBBase     = int(base.MaxClientNumber)
-	c17HangTimeout = 30 * time.Second
+	c17HangTimeout = 20 * time.Second
+	c17MaxHangs    = 3 // after that many hanging scenarios the generator stops (each one costs the timeout)
 	c17SettleSpin  = 40 * time.Microsecond
 )
 
@@ -1029,6 +1030,9 @@ func c17Run(c *Case) (string, []Fail) {
 	return "badcase", nil
 }
 
+// c17GiveUp: too many scenarios hung; the generator emits nothing more (the hangs are reported as failures)
+func c17GiveUp() bool { return c17env != nil && c17env.nbad >= c17MaxHangs }
+
 func c17RunScenario(c *Case) (string, []Fail) {
 	env := c17Setup()
 	if len(c.Z) < 2 {
@@ -1052,9 +1056,6 @@ func c17RunScenario(c *Case) (string, []Fail) {
 		sc.abort()
 		time.Sleep(50 * time.Millisecond)
 		env.nbad++
-		if env.nbad > 20 {
-			panic("c17: too many hanging scenarios")
-		}
 		lk := env.lk
 		c17env = c17NewEnv()
 		c17env.lk = lk
